@@ -49,8 +49,11 @@ TxnReject(r) ==                    \* a reject error carries the peer's reason c
 
 TxnT3NotEarly(r) ==                \* the T3 error comes no earlier than T3 after the primary was written
     \A i \in 1..Len(r.calls) : LET c == r.calls[i] IN
-        c.outcome = "t3" => /\ c.total_ms >= r.t3_ms - 2
-                            /\ c.dt_ms >= 0 => c.dt_ms >= r.t3_ms - Slack(r)
+        c.outcome = "t3" => /\ c.total_ms >= r.t3_ms - 2          \* the call started no later than its write
+                            \* measured from the peer's receipt -- which can lag the write by scheduling noise, so this
+                            \* half is only judged where the write is deliberately delayed (writer parked under the write
+                            \* lock: a timer armed before the write would be early by the whole stall) and with a wide slack
+                            /\ (r.kind = "stall" /\ c.dt_ms >= 0) => c.dt_ms >= r.t3_ms - 30 - 2 * r.max_jitter_ms
 
 TxnAnswered(r) ==                  \* a primary the peer answered promptly returns that reply (no lost / misrouted reply)
     r.kind \in {"plain", "cancel", "lt"} =>
